@@ -128,6 +128,8 @@ pub enum RenderForm {
 pub enum Stmt {
     Text(String),
     Out(Expr),
+    /// `{{ expr | dump }}` (harness filter: structural rendering)
+    OutDump(Expr),
     Assign(String, Expr),
     Capture(String, Vec<Stmt>),
     Incr(String),
@@ -217,6 +219,7 @@ fn print_stmt(st: &Stmt, s: &mut String) {
     match st {
         Stmt::Text(t) => s.push_str(t),
         Stmt::Out(e) => s.push_str(&format!("{{{{ {} }}}}", e.print())),
+        Stmt::OutDump(e) => s.push_str(&format!("{{{{ {} | dump }}}}", e.print())),
         Stmt::Assign(n, e) => s.push_str(&format!("{{% assign {n} = {} %}}", e.print())),
         Stmt::Capture(n, b) => {
             s.push_str(&format!("{{% capture {n} %}}"));
